@@ -378,6 +378,7 @@ class Run:
         self.extra = {}
         self.rng = random.Random(seed)
         self.replaying = False
+        self.shrinker = None
 
     def case(self, key, nontrivial, sample=None, classes=()):
         self.evaluations += 1
@@ -444,6 +445,15 @@ class Run:
         os.makedirs(os.path.join(VERIF, "replays"), exist_ok=True)
         if unlisted:
             f = unlisted[0]
+            if self.shrinker is not None and isinstance(f.case, dict) and f.case.get("files") \
+                    and not self.replaying:
+                try:
+                    small = shrink_case(f.case, self.shrinker)
+                    if small != f.case:
+                        f.detail = dict(f.detail, shrunk_from=f.case) if isinstance(f.detail, dict) else f.detail
+                        f.case = small
+                except Exception:
+                    pass
             path = os.path.join("replays", f"{self.pid}-{self.seed}.json")
             with open(os.path.join(VERIF, path), "w") as fd:
                 json.dump({"property": self.pid, "kind": f.kind, "seed": self.seed,
@@ -560,3 +570,55 @@ def corpus_cases(pid):
             if fn.endswith(".json"):
                 out.append(json.load(open(os.path.join(d, fn)))["case"])
     return out
+
+
+def shrink_case(case, still_fails, budget_s=20):
+    """Greedy delta-debugging over the explicit parts of a case: drop files, drop damage
+    operations, shorten file contents to the nearest smaller boundary class. `still_fails`
+    re-runs the implementation against the oracle on a candidate case."""
+    t0 = time.time()
+    best = json.loads(json.dumps(case))
+
+    def attempt(candidate):
+        if time.time() - t0 > budget_s:
+            return False
+        try:
+            return bool(still_fails(candidate))
+        except Exception:
+            return False
+    changed = True
+    while changed and time.time() - t0 < budget_s:
+        changed = False
+        for key in ("damage", "files"):
+            items = best.get(key) or []
+            i = 0
+            while i < len(items) and len(items) > (1 if key == "files" else 0):
+                cand = dict(best)
+                cand[key] = items[:i] + items[i + 1:]
+                if key == "files":
+                    gone = items[i][0]
+                    cand["damage"] = [d for d in best.get("damage", []) if d[1] != gone]
+                    if "v1_order" in cand:
+                        cand["v1_order"] = [r for r in cand["v1_order"] if r != gone]
+                if attempt(cand):
+                    best, items, changed = cand, cand[key], True
+                else:
+                    i += 1
+        # shorten contents: r<seed>.<n> -> smaller n
+        for idx, (rel, tok) in enumerate(list(best.get("files") or [])):
+            if not tok.startswith("r") or "," in tok:
+                continue
+            seed_, n = tok[1:].split(".")
+            n = int(n)
+            for smaller in (0, 1, 16383, 16384, 16385, n // 2):
+                if smaller >= n:
+                    continue
+                if any(d[1] == rel for d in best.get("damage", [])):
+                    break
+                cand = dict(best)
+                cand["files"] = list(best["files"])
+                cand["files"][idx] = [rel, f"r{seed_}.{smaller}"]
+                if attempt(cand):
+                    best, changed = cand, True
+                    break
+    return best
